@@ -33,8 +33,21 @@ def new_report(tier):
 def scanner_escape_table(F):
     """returns (named: {escape char code point -> decoded code point}, hexlen: {escape char -> digits}, default_target_bb, info)"""
     f = F.fn(RESOLVE)
-    ret_l = [i for i, l in enumerate(f.locals) if l.get("name") == "ret"]
-    len_l = [i for i, l in enumerate(f.locals) if l.get("name") == "code_length"]
+    # the result variable (the char moved into Ok(..)) and the hex-length variable (the usize handed to lookahead / used as the digit count),
+    # identified by use, not by name
+    ret_l, len_l = [], []
+    for bi, si, s in cfg.stmts(f):
+        if s["k"] == "assign" and s["lhs"]["l"] == 0 and not s["lhs"]["p"] and s["rv"]["k"] == "agg" and s["rv"].get("variant") == "Ok":
+            l = is_local(s["rv"]["ops"][0])
+            l = cfg.resolve_copy_chain(f, l) if l is not None else None
+            if l is not None and f.locals[l]["ty"] == "char":
+                ret_l.append(l)
+    for bb, t, ck, fr in f.calls():
+        if ck and ck.endswith("Input::lookahead"):
+            l = is_local(t["args"][1])
+            l = cfg.resolve_copy_chain(f, l) if l is not None else None
+            if l is not None and f.locals[l]["ty"] == "usize" and len(cfg.defs_of_local(f, l)) > 1:
+                len_l.append(l)
     sw = None
     for bi, b in enumerate(f.blocks):
         t = b["term"]
@@ -114,7 +127,7 @@ def run(tier):
     # hex accumulator shape: value = ((value << 4) + as_hex(c)).0 with c = peek_nth(i), under is_hex(c) (C01 checks the guard)
     okacc = False
     for bi, si, s in cfg.stmts(f):
-        if s["k"] == "assign" and not s["lhs"]["p"] and f.local_name(s["lhs"]["l"]) == "value" and s["rv"]["k"] == "use":
+        if s["k"] == "assign" and not s["lhs"]["p"] and f.locals[s["lhs"]["l"]]["ty"] == "u32" and s["rv"]["k"] == "use":
             e = cfg.expr_operand(f, s["rv"]["a"], 10)
             st = cfg.expr_str(e).replace(" ", "")
             if e[0] == "place" and e[2] == [("field", "0")] and e[1][0] == "bin" and e[1][1] == "AddWithOverflow":
